@@ -4,18 +4,25 @@ import SJ.Proofs.FloatFmt
 set_option linter.unusedVariables false
 set_option linter.unusedSimpArgs false
 /-
-GoFloatFmtLemmas — helpers for `GoFloatFmt.lean` (`min`, `max`, `fmtF`, `appendFloatF`, `appendFloat` of
-`appendfloat_f.go` / `parsed_json.go` against `Model/FloatFmt.lean`).
+GoFloatFmtLemmas — helpers for `GoFloatFmt.lean` (`min`, `max`, `fmtF`, `appendFloatF` of `appendfloat_f.go` and
+`appendFloat` of `parsed_json.go`, as printed in `Generated/GoSrc.lean`, against `Model/FloatFmt.lean`).
 
-* stores: `Env.get_set`; `Keep e e'` — a piece of `fmtF` changes only `dst` and its temporaries.
-* `callFun_min`, `callFun_max`: the two helpers through `callFun` from any caller store without the shared buffers.
-* `loop1`, `loop2`: the two `for` loops of `fmtF` by induction on the remaining iterations (`k < fuel`).
-* `fmtFGo`: what `fmtF` computes for arbitrary arguments; `fmtFGo_model`: on the digits of a `Shortest` and
-  `prec = max(nd - dp, 0)` it is the model's `FloatFmt.fmtF`.
-* bit facts (`exOf`, `absOf`, …) relating the field extraction of `appendFloatF` and the predicates of `appendFloat`
-  (`math.IsInf`, `math.IsNaN`, the float comparisons) to `F64.isFinite`, `shortest`, `loBits`, `hiBits`.
-* `cleanup_eq`: the in-place "e-09 → e-9" rewrite on `dst ++ b` is `dst ++ cleanExp b` (needs `4 ≤ b.size`:
-  `fmtE_size`).
+* stores: `Env.get_set`; `Keep e e'` — a piece of `fmtF` writes only `dst` and its temporaries (`tmpVars`).
+* `gomin_run`, `gomax_run`; `callFun_min`, `callFun_max`: the two helpers through `callFun` from any caller store
+  that does not hold the shared buffers (`Strings.B`, `Message`), the caller's store coming back unchanged.
+* `loop1`, `loop2`: the two `for` loops of `fmtF`, by induction on the remaining iterations `k`, for any store and
+  any fuel `> k`; `seg_sign`, `seg_int`, `seg_frac`, `fmtF_exec`: the body of `fmtF` on any store holding its
+  arguments (`FIn`), with `0 ≤ nd ≤ len(d.d)` (so no slice or index can fail) and `fmtFFuel nd dp prec ≤ fuel`.
+* `fmtFGo`: what `fmtF` computes for arbitrary arguments; `fmtFGo_model`: on the ASCII digits of a `Shortest` and
+  `prec = max(nd - dp, 0)` it is the model's `FloatFmt.fmtF` (through `FloatFmtProofs.fmtF_raw`).
+* bits (no `bv_decide`: everything through `toNat`, `Nat.and_two_pow_sub_one_eq_mod` and `omega`): `absOf`, `exOf`,
+  `toInt64_shr52`, `hiWord_and`, `exOf_abs`, `fr_abs`, `isFinite_iff`, `fin_facts`/`nonfin_facts`
+  (`math.IsInf || math.IsNaN` ⇔ `¬ F64.isFinite`), `fcmpBits_pos` (float comparisons of non-negative non-NaN values
+  are comparisons of the bit patterns).
+* `goMant`, `goExp`, `shortest_abs`, `ryu_contract`: the interpreter's contract of `ryuFtoaShortest`, on the
+  mantissa/exponent `appendFloatF` extracts (zero, denormal, normal), returns the digits of `shortest |f|`.
+* `goClean`, `goClean_append`, `fmtE_size`: the in-place "e-09 → e-9" rewrite, done by the Go code on the whole of
+  `dst ++ b`, is `dst ++ cleanExp b` when `4 ≤ len(b)`, and `fmtE` always produces at least 4 bytes.
 -/
 namespace SJ.GoFloatFmt
 open SJ SJ.GoSem SJ.Generated SJ.FloatFmt SJ.FloatFmtProofs
